@@ -26,6 +26,8 @@ def main():
         def _done(self, kind):
             state['n'] += 1
             if snaps is not None:
+                import shutil
+                shutil.copyfile(path, os.path.join(d, 'snap_%04d.h5' % state['n']))      # pristine copy of this checkpoint
                 snaps.write(json.dumps(dict(i=state['n'], kind=kind, n_like=int(self.n_like),
                                             digest=content_digest(path))) + '\n')
             prog.write('%d %s %d\n' % (state['n'], kind, int(self.n_like)))
